@@ -1,3 +1,4 @@
 import PyhfDriver.Json
 import PyhfDriver.Interp
 import PyhfDriver.ModelOps
+import PyhfDriver.InferOps
